@@ -281,7 +281,7 @@ CHECKS = {
         "the upper-half transform equals the Fourier sum with the Hermitian extension f(-t) = conj f(t), and FT o iFT / iFT o FT return "
         "the original values for every complex data vector; the pinned code computes the same for even lengths and is refuted at odd "
         "complete lengths (L = 3 witness over Q(omega); repaired by a fix: commit). Validated only: numpy.fft.fft/ifft compute the "
-        "defining sums (oracle hypotheses, monitored against direct summation on every recorded call).",
+        "defining sums (oracle hypotheses, monitored against direct summation on every recorded call). The orthogonality of the powers of zeta that the round-trip theorems assume is itself proved (c13_orthogonality_from_primitive_root) for every ring without zero divisors in which zeta is a primitive L-th root of unity, with the Gaussian integers and zeta = i as a checked instance: the round trips hold in every integral domain (c13_roundtrip_complete_in_domain, c13_roundtrip_upper_in_domain).",
    note=TB + "All C13 theorems closed under the global context. The round trips assume orthogonality of the powers of zeta (stated "
         "hypothesis; true of e^(2 pi i/L), not machine checked). Tie: axis cases (lengths 1..60, negative steps, both directions, "
         "refusals) compared inside Coq over Q; transform cases for every length 1..40, both types, three chains, Gaussian-integer data, "
